@@ -59,8 +59,23 @@ def rand_cores(rng, row_dims, col_dims, ranks, cplx=False, kind='gauss'):
     return cores
 
 
-def rand_tt(rng, row_dims, col_dims, ranks, cplx=False, kind='gauss'):
-    return TTcls()(rand_cores(rng, row_dims, col_dims, ranks, cplx, kind))
+def rand_tt(rng, row_dims, col_dims, ranks, cplx=False, kind='gauss', scale=None):
+    cores = rand_cores(rng, row_dims, col_dims, ranks, cplx, kind)
+    if scale is not None:
+        apply_scale(cores, rng, scale)
+    return TTcls()(cores)
+
+
+def rand_scale(rng, p_unit=0.6, span=8):
+    """global magnitude of a test tensor: mostly 1, otherwise 10^U(-span, span) (nothing in the properties depends on scale)"""
+    return 1.0 if rng.random() < p_unit else float(10 ** rng.uniform(-span, span))
+
+
+def apply_scale(cores, rng, scale):
+    """multiply one (randomly chosen) core by `scale`"""
+    k = int(rng.integers(0, len(cores)))
+    cores[k] = cores[k] * scale
+    return cores
 
 
 def rand_ranks(rng, d, rmax, p_one=0.3, boundary=(1, 1)):
